@@ -430,14 +430,24 @@ def stepFd (st : St) (ws : List String) : St × String :=
               | .error e => showUErr e)
           | none => bad st
         | "at", [i] => match i.toInt? with
-          | some i => (st, match d.get i with | some v => s!"{v} true" | none => "0 false")
+          | some i =>
+            -- through `Dec.step` (Round 12): the object after a read is what the model says it is
+            let r := d.step (.get i)
+            ({ st with fd := Map.upsert st.fd h r.2 },
+              match r.1 with
+              | .get (some v) => s!"{v} true"
+              | .get none => "0 false"
+              | _ => "bad-op")
           | none => bad st
         | "blk", [i, data] => match i.toInt?, unhex data with
           | some i, some data =>
-            (st, match d.getBlock i data with
-              | .ok b => s!"ok {hex b}"
-              | .error .corruptedIndex => "err corrupted-index"
-              | .error .corruptedRange => "err corrupted-range")
+            let r := d.step (.blk i data)
+            ({ st with fd := Map.upsert st.fd h r.2 },
+              match r.1 with
+              | .blk (.ok b) => s!"ok {hex b}"
+              | .blk (.error .corruptedIndex) => "err corrupted-index"
+              | .blk (.error .corruptedRange) => "err corrupted-range"
+              | _ => "bad-op")
           | _, _ => bad st
         | _, _ => bad st
   | _ => bad st
